@@ -217,6 +217,10 @@ class World:
             else:
                 self.env[var] = top
                 self.env.update(RUN2D=run2d, RUN1D=run1d)
+                if loc == 'sdss1':
+                    # both survey variables are set, as on a real system: an integer RUN2D lives under $SPECTRO_REDUX, the
+                    # BOSS variable points at another (here: absent) tree and must not be consulted
+                    self.env['BOSS_SPECTRO_REDUX'] = os.path.join(base, 'boss_elsewhere')
             self.top, self.run2d = top, run2d
         else:
             raise ValueError(loc)
